@@ -225,10 +225,13 @@ func (f *facts) runScenariosFixed(fd *ast.FuncDecl, preds []string, fixed map[st
 		s := &sym{f: f, classify: classify, effect: effect, scen: sc, fixed: fixed}
 		s.block(fd.Body.List)
 		var eff []string
+		prev := ""
 		for _, e := range s.effects {
-			if !drop[e] {
-				eff = append(eff, fmt.Sprintf("%q", e))
+			if drop[e] || (drop["__dedupe"] && e == prev) {
+				continue
 			}
+			prev = e
+			eff = append(eff, fmt.Sprintf("%q", e))
 		}
 		rows = append(rows, fmt.Sprintf("([%s], [%s])", strings.Join(name, ", "), strings.Join(eff, ", ")))
 		unknown = append(unknown, s.unknown...)
@@ -769,6 +772,136 @@ func (f *facts) flowTables(conn, tr *ast.File) string {
 			rows, unk := f.runScenarios(fd, fn.preds, wrapClassify, wrapEffect)
 			emit(fn.lean, rows, unk)
 		}
+	}
+
+	// the two users of the multiplexer that do not go through (*Conn).do: ApiVersions and ReadBatchWith
+	muxEffect := func(extra func(p string, c *ast.CallExpr) string) func(ast.Node) string {
+		return func(n ast.Node) string {
+			switch x := n.(type) {
+			case *ast.DeferStmt:
+				if strings.HasSuffix(selPath(x.Call.Fun), ".Unlock") {
+					return "defer:unlock"
+				}
+			case *ast.CallExpr:
+				p := selPath(x.Fun)
+				switch {
+				case strings.HasSuffix(p, ".doRequest"):
+					last = "doRequest"
+					return "doRequest"
+				case strings.HasSuffix(p, ".waitResponse"):
+					last = "waitResponse"
+					return "waitResponse"
+				case strings.HasSuffix(p, ".conn.Close"):
+					return "close"
+				}
+				return extra(p, x)
+			case *ast.ReturnStmt:
+				for _, r := range x.Results {
+					if u, ok := r.(*ast.UnaryExpr); ok {
+						if cl, ok := u.X.(*ast.CompositeLit); ok && src(f.fset, cl.Type) == "Batch" {
+							for _, el := range cl.Elts {
+								if kv, ok := el.(*ast.KeyValueExpr); ok && src(f.fset, kv.Key) == "lock" {
+									return "return:batchHoldingTheLock"
+								}
+							}
+							return "return:batchWithErrorOnly"
+						}
+					}
+				}
+				return "return"
+			}
+			return ""
+		}
+	}
+	errAfter := func(names map[string]string, extra func(ast.Expr) string) func(ast.Expr) string {
+		return func(e ast.Expr) string {
+			if bx, ok := e.(*ast.BinaryExpr); ok && (bx.Op == token.EQL || bx.Op == token.NEQ) && src(f.fset, bx.Y) == "nil" && strings.HasPrefix(src(f.fset, bx.X), "err") {
+				neg := ""
+				if bx.Op == token.EQL {
+					neg = "!"
+				}
+				if p, ok := names[last]; ok {
+					return neg + p
+				}
+			}
+			return extra(e)
+		}
+	}
+	if fd := findFunc(conn, "Conn", "ApiVersions"); fd != nil {
+		last = ""
+		classify := errAfter(map[string]string{"doRequest": "requestFailed", "waitResponse": "waitFailed", "read": "bodyReadFailed"}, func(e ast.Expr) string {
+			t := src(f.fset, e)
+			switch {
+			case strings.HasSuffix(t, ".IsZero()"):
+				return "noReadDeadline"
+			case strings.Contains(t, "/6") || strings.HasSuffix(t, "< 0"):
+				return "countOutOfBounds"
+			case strings.HasSuffix(t, "!= 0"):
+				return "errorCodeInAnswer"
+			}
+			if bx, ok := e.(*ast.BinaryExpr); ok && bx.Op == token.LSS {
+				return "moreEntries"
+			}
+			return ""
+		})
+		effect := muxEffect(func(p string, c *ast.CallExpr) string {
+			if p == "readInt16" || p == "readInt32" {
+				last = "read"
+				return "read"
+			}
+			return ""
+		})
+		rows, unk := f.runScenariosFixed(fd, []string{"requestFailed", "waitFailed", "bodyReadFailed", "countOutOfBounds", "errorCodeInAnswer"},
+			map[string]bool{"noReadDeadline": false, "moreEntries": false}, map[string]bool{"__dedupe": true}, classify, effect)
+		emit("apiVersionsFlow", rows, unk)
+	}
+	if fd := findFunc(conn, "Conn", "ReadBatchWith"); fd != nil {
+		last = ""
+		classify := errAfter(map[string]string{"seek": "seekFailed", "negotiate": "negotiateFailed", "doRequest": "requestFailed",
+			"waitResponse": "waitFailed", "header": "headerFailed", "drain": "headerFailed", "newReader": "firstHeaderFailed"}, func(e ast.Expr) string {
+			t := src(f.fset, e)
+			switch {
+			case strings.Contains(t, "cfg.M") && !strings.Contains(t, "MaxWait"):
+				return "badConfig"
+			case strings.Contains(t, "MaxWait"):
+				return "explicitMaxWait"
+			case strings.Contains(t, "errShortRead"):
+				return "shortRead"
+			}
+			if bx, ok := e.(*ast.BinaryExpr); ok && bx.Op == token.EQL {
+				return "atWatermark"
+			}
+			if bx, ok := e.(*ast.BinaryExpr); ok && bx.Op == token.GTR && src(f.fset, bx.Y) == "0" {
+				return "setNotEmpty"
+			}
+			return ""
+		})
+		effect := muxEffect(func(p string, c *ast.CallExpr) string {
+			switch {
+			case strings.HasSuffix(p, ".Seek"):
+				last = "seek"
+				return "seek"
+			case strings.HasSuffix(p, ".negotiateVersion"):
+				last = "negotiate"
+				return "negotiate"
+			case strings.HasPrefix(p, "readFetchResponseHeaderV"):
+				last = "header"
+				return "readHeader"
+			case p == "discardOnKafkaError":
+				last = "drain"
+				return "drainOnKafkaError"
+			case p == "newMessageSetReader":
+				last = "newReader"
+				return "newMessageSetReader"
+			case p == "discardN":
+				last = "newReader"
+				return "skipSetAtWatermark"
+			}
+			return ""
+		})
+		rows, unk := f.runScenariosFixed(fd, []string{"seekFailed", "negotiateFailed", "requestFailed", "waitFailed", "headerFailed", "atWatermark", "setNotEmpty"},
+			map[string]bool{"badConfig": false, "explicitMaxWait": true, "shortRead": false, "firstHeaderFailed": false}, nil, classify, effect)
+		emit("readBatchWithFlow", rows, unk)
 	}
 
 	// (*Conn).saslAuthenticate: raw versus framed, and every way the un-framed exchange can fail
